@@ -9,6 +9,10 @@ invariant of the refinement proof on every step (`REP-BROKEN` otherwise), and `f
 the model's own checkpoint file back as a linked list, to be compared with the same reading of
 the file the real code wrote.
 
+`shutdown` (bump + checkpoint + scan_directory, `Model/LruPersist`) is run on both layers like any
+other operation; `latest` (no state change) answers `find_latest_lru_file` on the model's
+directory.
+
 MD5 is a parameter of the model; the driver instantiates it with a constant (the hash field is
 not an observable of the property, and the model only ever reads files it wrote itself).
 -/
@@ -16,7 +20,7 @@ import Std.Data.HashMap
 import Std.Data.HashSet
 import Driver.Common
 import Cascette.Model.LruPtr
-import Cascette.Model.LruSeq
+import Cascette.Model.LruPersist
 open Cascette Drv
 open Cascette.Spec.Lru
 open Cascette.Model
@@ -64,8 +68,8 @@ def hasBits (keys present : List LruPtr.Key) : List Bool :=
 def fmtHas (bits : List Bool) : String :=
   if bits.isEmpty then "-" else String.ofList (bits.map fun b => if b then '1' else '0')
 
-def fmtOut : Op LruPtr.Key → Out → String
-  | .evictTail, .bool b => if b then "some" else "none"
+def fmtOut : XOp LruPtr.Key → Out → String
+  | .op .evictTail, .bool b => if b then "some" else "none"
   | _, .bool b => if b then "true" else "false"
   | _, .evicted n f => s!"{n} {f}"
   | _, .ok => "ok"
@@ -78,7 +82,7 @@ def ptrView (st : DState) (p : LruPtr.Ptr) : String :=
 def seqView (st : DState) (q : LruSeq.Seq LruPtr.Key) : String :=
   s!"len={q.len} order={fmtOrder st.index (some (q.iter LruPtr.zeroKey))} has={fmtHas (hasBits st.keys q.order)} gen={q.gen} prev={q.prev}"
 
-def parseOp (keys : List LruPtr.Key) : List String → Option (Op LruPtr.Key)
+def parseBase (keys : List LruPtr.Key) : List String → Option (Op LruPtr.Key)
   | ["touch", i] => (i.toNat?.bind (keys[·]?)).map .touch
   | ["remove", i] => (i.toNat?.bind (keys[·]?)).map .remove
   | ["evict_tail"] => some .evictTail
@@ -94,6 +98,10 @@ def parseOp (keys : List LruPtr.Key) : List String → Option (Op LruPtr.Key)
   | ["reset"] => some .reset
   | ["reopen"] => some .reopen
   | _ => none
+
+def parseOp (keys : List LruPtr.Key) : List String → Option (XOp LruPtr.Key)
+  | ["shutdown"] => some .shutdown
+  | toks => (parseBase keys toks).map .op
 
 /-- the executable side of the representation invariant of `Proofs/LruRefine` (`RepF`): the
 `next` walk ends inside the fuel, `prev` and `mru_head` mirror it, linked + free = capacity =
@@ -116,11 +124,11 @@ def fmtFileView (st : DState) : String :=
     s!"file n={v.entries} linked={fmtOrder st.index (some v.linked)} free={v.free} stale={v.stale} prev={if v.prevOk then "ok" else "bad"} head={if v.headOk then "ok" else "bad"}"
 
 /-- does this op restore a snapshot that holds the all-zero key (at the `LruSeq` level)? -/
-def restoresZero (q : LruSeq.Seq LruPtr.Key) : Op LruPtr.Key → Bool
-  | .load g => match Files.lookup q.files g with
+def restoresZero (q : LruSeq.Seq LruPtr.Key) : XOp LruPtr.Key → Bool
+  | .op (.load g) => match Files.lookup q.files g with
     | some snap => snap.contains LruPtr.zeroKey
     | none => false
-  | .runCycle _ _ => match Files.latest q.files with
+  | .op (.runCycle _ _) => match Files.latest q.files with
     | some g => match Files.lookup q.files g with
       | some snap => snap.contains LruPtr.zeroKey
       | none => false
@@ -138,14 +146,16 @@ def handle (st : DState) (toks : List String) : DState × String :=
   | _ =>
     if !st.started then (st, "bad-op") else
     if toks == ["filecheck"] then (st, s!"{fmtFileView st} | {ptrView st st.ptr}") else
+    if toks == ["latest"] then
+      (st, (match LruPersist.ptrLatest st.ptr with | none => "none" | some g => s!"gen={g}") ++ s!" | {ptrView st st.ptr}") else
     match parseOp st.keys toks with
     | none => (st, "bad-op")
     | some op =>
-      match LruPtr.step md5c st.ptr op with
+      match LruPersist.ptrXStep md5c st.ptr op with
       | none => (st, "panic")
       | some (p', out) =>
         let exact := st.seqExact && !restoresZero st.seq op
-        let (q', qout) := LruSeq.step LruPtr.zeroKey st.seq op
+        let (q', qout) := LruPersist.seqXStep LruPtr.zeroKey st.seq op
         let line := s!"{fmtOut op out} | {ptrView st p'}"
         let same := out == qout && LruPtr.len p' == q'.len && LruPtr.iter p' == some (q'.iter LruPtr.zeroKey)
           && hasBits st.keys (p'.keyMap.map (·.1)) == hasBits st.keys q'.order && p'.gen == q'.gen && p'.prev == q'.prev
